@@ -36,6 +36,9 @@ CLAIMS = {
     "C15": ("spec/Walk.tla, MC_Walk.tla",
             "TLC checks C15_ProcessedIffNotMatched, C15_NotDescended, C15_ExcludedNotScanned, C15_WholeInputExcluded for every pattern set of the menu and every listing permutation; replayed behaviours compare the documented files with the non-excluded ones and the directories listed (os.walk roots, os.scandir calls) with the excluded set.",
             "gitignore semantics of pathspec trusted; pattern forms: name, name/, *.ext, **/name, absolute path", "4 C15"),
+    "C18": ("spec/Walk.tla (effect log), MC_Walk.tla",
+            "TLC checks the effect invariants of the walk specification (C18_NoWritesWithoutOut, C18_NoPrintsWithOut, C18_WritesUnderOut, C18_SortedPerDirectory); each terminal behaviour is run through the real cminx.main with and without -o in fresh sandboxes with complete before/after snapshots (paths and bytes, HOME included) and captured stdout; created/changed/deleted paths are compared with the output directory and stdout with the concatenation of the written pages.",
+            "diagnostics-free inputs; output styles abs/relative/parent/inside-top/inside-sub; four settings variants", "4 C18"),
     "C20": ("spec/RstWriter.tla, MC_C20.tla",
             "TLC checks HeadingFramed, IndentExact, OptionsFirst, OrderPreserved, ClearKeepsHeading and the action property ToTextIsPure on the API-history machine for all histories up to the bound; every history ending in to_text is replayed on the real RSTWriter, each serialisation compared character for character with the specification's Lines(), serialised twice and the document compared before/after.",
             "single-line field values; section/doctest/simple_table not exercised; bounds as in evidence", "4 C20"),
